@@ -560,7 +560,8 @@ def pipeline_strategy(kinds, safe=False, no_setlimit=False):
             "svc": st.one_of(st.just([0]), st.lists(st.sampled_from([0, 1, 1, 2, 3, 4]), min_size=1, max_size=5),
                              st.lists(st.sampled_from([0, 1, 1, 2, 3, 4]), min_size=1, max_size=5)),
             "setlim": st.lists(st.tuples(st.sampled_from([1, 2, 3, 5, 7]), st.integers(1, 4)), max_size=0 if (safe or no_setlimit) else 2),
-            "chain": st.booleans(), "discard": st.booleans(), "tagw": st.booleans(), "defpat": st.sampled_from([0, 0, 1, 2, 3]),
+            "chain": st.booleans(), "discard": st.booleans(), "tagw": st.booleans(), "auto": st.booleans(), "instant": st.sampled_from([False, False, True]),
+            "defpat": st.sampled_from([0, 0, 1, 2, 3]),
             "arrivals": st.lists(arr, min_size=1, max_size=14 if big else 10),
             "spread": st.just(True) if safe else st.just(False),
         })
@@ -591,6 +592,8 @@ def pipeline_execute(obl, safe=False, no_setlimit=False):
             # as generated {direct, far-relay} twins and (service times being whole ticks) no arrival coincides with the
             # completion of another request
             limit = 1
+        auto = bool(case.get("auto"))
+        instant = bool(case.get("instant"))
         clock = [None]
         now = lambda: clock[0].now.nanoseconds          # noqa: E731
         T = Track(bad, now)
@@ -676,6 +679,12 @@ def pipeline_execute(obl, safe=False, no_setlimit=False):
                     rid = event.context["rid"]
                     recv(rid)
                     begin(rid)
+                    if instant:                       # work that completes at once: a plain (non-generator) handler that
+                        end(rid)                      # emits nothing (no downstream event keeps the run alive)
+                        return None
+                    return self._serve(event, rid)
+
+                def _serve(self, event, rid):
                     try:
                         yield svc_of(rid)
                     finally:
@@ -705,6 +714,13 @@ def pipeline_execute(obl, safe=False, no_setlimit=False):
                         recv(rid)
                         self._in_flight += 1
                         begin(rid)
+                        if instant:                   # non-generator handler: done within the delivery itself, emits nothing
+                            self._in_flight -= 1
+                            end(rid)
+                            return None
+                        return self._serve(event, rid)
+
+                    def _serve(self, event, rid):
                         try:
                             yield svc_of(rid)
                         finally:
@@ -871,7 +887,9 @@ def pipeline_execute(obl, safe=False, no_setlimit=False):
         ctl = Ctl("ctl")
         ents.append(ctl)
 
-        sim = Simulation(entities=ents, end_time=Instant(2000 * TICK))
+        # `auto`: no end_time and no keep-alive event - the run auto-terminates when only daemon events are left, so
+        # component-internal housekeeping events must not be what the remaining work depends on
+        sim = Simulation(entities=ents) if auto else Simulation(entities=ents, end_time=Instant(2000 * TICK))
         clock[0] = sim._clock
         arr_t = {}
         for rid, a in enumerate(arrivals):
@@ -925,6 +943,8 @@ def pipeline_execute(obl, safe=False, no_setlimit=False):
             for rid in b["done"]:
                 if S["chain"] and not final:
                     continue            # still travelling through the second stage
+                if instant and kind in ("qd", "qr"):
+                    continue            # instant workers have no downstream: completion is the end of the handler
                 if T.st[rid]["sink"] != 1:
                     bad("lost/completed-but-not-at-sink" if T.st[rid]["sink"] == 0 else "duplicated/completed-twice",
                         f"request {rid} finished service, sink saw it {T.st[rid]['sink']}x")
@@ -979,7 +999,7 @@ def pipeline_execute(obl, safe=False, no_setlimit=False):
             r.labels.append("same-instant-hop-gap>=5")
         fin_t = {s.get("sink_t") for s in T.st.values() if s.get("sink_t") is not None}
         r.nontrivial = (same and len(hops) > 1) or bool(fin_t & set(arr_t.values())) or "limit-changed" in T.labels
-        r.labels += [kind] + sorted(T.labels)
+        r.labels += [kind] + sorted(T.labels) + (["auto-terminating"] if auto else []) + (["instant-worker"] if instant and kind in ("qd", "qr") else [])
         if bool(fin_t & set(arr_t.values())):
             r.labels.append("arrival-on-completion-instant")
         return r
